@@ -82,6 +82,16 @@ func analyseHandler(h *clientHandler) {
 			if fn != nil && fn.Pkg() == h.pk.Types {
 				// a positional decoding helper: helper(..., params, &a, &b, ...) that unmarshals
 				// params[i] into its i-th variadic target and insists on equal lengths
+				// an arity helper: helper(..., params, N) that compares len(params) with N
+				if pi, ni := arityChecker(h.pk, fn); pi >= 0 && pi < len(x.Args) && ni < len(x.Args) {
+					if id, ok := ast.Unparen(x.Args[pi]).(*ast.Ident); ok && info.Uses[id] == prm {
+						if tv, ok := info.Types[x.Args[ni]]; ok && tv.Value != nil {
+							if k, exact := constant.Int64Val(tv.Value); exact {
+								h.maxArity = int(k)
+							}
+						}
+					}
+				}
 				if pi, vi, exact := positionalDecoder(h.pk, fn); vi >= 0 && pi < len(x.Args) && vi <= len(x.Args) {
 					if id, ok := ast.Unparen(x.Args[pi]).(*ast.Ident); ok && info.Uses[id] == prm && !x.Ellipsis.IsValid() {
 						for k, a := range x.Args[vi:] {
@@ -1029,4 +1039,70 @@ func positionalDecoder(pk *packages.Package, fn *types.Func) (int, int, bool) {
 		return -1, -1, false
 	}
 	return pi, vi, exact
+}
+
+// arityChecker recognises func(..., P []json.RawMessage, ..., N int, ...) error whose body
+// compares len(P) with N. It returns the indexes of P and N, or -1.
+func arityChecker(pk *packages.Package, fn *types.Func) (int, int) {
+	info := pk.TypesInfo
+	var fd *ast.FuncDecl
+	for _, f := range pk.Syntax {
+		for _, d := range f.Decls {
+			if x, ok := d.(*ast.FuncDecl); ok && info.Defs[x.Name] == fn {
+				fd = x
+			}
+		}
+	}
+	sig, _ := fn.Type().(*types.Signature)
+	if fd == nil || fd.Body == nil || sig == nil {
+		return -1, -1
+	}
+	idxOf := func(o types.Object) int {
+		for i := 0; i < sig.Params().Len(); i++ {
+			if types.Object(sig.Params().At(i)) == o {
+				return i
+			}
+		}
+		return -1
+	}
+	pi, ni := -1, -1
+	ast.Inspect(fd.Body, func(n ast.Node) bool {
+		be, ok := n.(*ast.BinaryExpr)
+		if !ok {
+			return true
+		}
+		switch be.Op {
+		case token.NEQ, token.EQL, token.GTR, token.LSS, token.GEQ, token.LEQ:
+		default:
+			return true
+		}
+		lenArg := func(e ast.Expr) types.Object {
+			c, ok := ast.Unparen(e).(*ast.CallExpr)
+			if !ok || len(c.Args) != 1 {
+				return nil
+			}
+			if id, ok := c.Fun.(*ast.Ident); !ok || id.Name != "len" {
+				return nil
+			}
+			if a, ok := ast.Unparen(c.Args[0]).(*ast.Ident); ok {
+				return info.Uses[a]
+			}
+			return nil
+		}
+		for _, pair := range [][2]ast.Expr{{be.X, be.Y}, {be.Y, be.X}} {
+			lo := lenArg(pair[0])
+			id, ok := ast.Unparen(pair[1]).(*ast.Ident)
+			if lo == nil || !ok {
+				continue
+			}
+			a, b := idxOf(lo), idxOf(info.Uses[id])
+			if a >= 0 && b >= 0 {
+				if sl, isSl := sig.Params().At(a).Type().Underlying().(*types.Slice); isSl && isNamed(sl.Elem(), "encoding/json", "RawMessage") {
+					pi, ni = a, b
+				}
+			}
+		}
+		return true
+	})
+	return pi, ni
 }
